@@ -52,6 +52,7 @@ import (
 	"errors"
 	"iter"
 	"log/slog"
+	"maps"
 	"net/http"
 	"time"
 
@@ -307,6 +308,16 @@ func (r *transport) handleCacheHit(
 	ccReq := internal.ParseCCRequestDirectives(req.Header)
 	ccResp := internal.ParseCCResponseDirectives(stored.Data.Header)
 	freshness := r.fc.CalculateFreshness(stored, ccReq, ccResp)
+	if reqMaxAge, ok := ccReq.MaxAge(); ok && reqMaxAge == 0 {
+		// CalculateFreshness answers max-age=0 with "stale, age 0, lifetime 0".
+		// Validation is forced below either way, but the Age field and the
+		// stale-if-error window of a response served after a failed
+		// validation need the response's real age and lifetime.
+		withoutMaxAge := maps.Clone(ccReq)
+		delete(withoutMaxAge, "max-age")
+		freshness = r.fc.CalculateFreshness(stored, withoutMaxAge, ccResp)
+		freshness.IsStale = true
+	}
 	respNoCacheFieldsRaw, hasRespNoCache := ccResp.NoCache()
 	respNoCacheFieldsSeq, isRespNoCacheQualified := respNoCacheFieldsRaw.Value()
 
